@@ -41,6 +41,7 @@ RULE = ('random single assemblies / small cores with Fuel/PinModel, Hotspot, '
         'parallel n_cpu 2-4, and one at a time, two hash seeds; non-trivial '
         'when a pin model is present (history cases) or >= 2 time points '
         '(schedule cases); distinct by (features, time points, workers)')
+RULE += (' Later rounds added: an orificing optimisation between two constructions, spacer grids, user heat-transfer parameter lists with convection factors, a construction with keyword overrides in between.')
 DECIDING = ['H1_input_unchanged', 'H2_reconstruction_succeeds',
             'H3_reconstruction_bitwise_equal', 'S1_schedule_outputs_equal',
             'S2_writes_stay_in_own_directory', 'H4_fresh_process_bitwise']
